@@ -643,6 +643,22 @@ def targeted():
                                            ["registered"], ["return", 0]]})
         out.append({"ser": ser, "events": [["reg", ["c", 0], ["name", 0], False, False], ["call", ["name", 0]], ["reg", ["c", 0], ["name", 1], False, False],
                                            ["reg", ["c", 1], ["name", 0], False, True], ["unreg_obj", ["c", 0]], ["call", ["name", 0]], ["registered"]]})
+        # collection: several weak ids of one object (forced aliases), another object's registrations untouched, strong holder blocks it
+        out.append({"ser": ser, "events": [["reg", ["o", 0], ["name", 0], False, True], ["reg", ["o", 0], ["gen"], True, True], ["reg", ["o", 1], ["name", 1], False, True],
+                                           ["reg", ["o", 2], ["gen"], False, False], ["registered"], ["gc", 0], ["registered"], ["call", ["name", 0]], ["call", ["gen", 0]],
+                                           ["call", ["name", 1]], ["call", ["gen", 1]], ["return", 0], ["return", 1], ["gc", 2], ["unreg_id", ["gen", 1]], ["gc", 2], ["return", 2]]})
+        out.append({"ser": ser, "events": [["reg", ["o", 0], ["name", 0], False, True], ["reg", ["o", 0], ["name", 1], True, False], ["gc", 0], ["unreg_id", ["name", 1]],
+                                           ["gc", 0], ["call", ["name", 0]], ["registered"]]})
+        # a second registration of the same object / class without force: strong, weak, explicit and generated ids
+        for weak in (False, True):
+            out.append({"ser": ser, "events": [["reg", ["o", 0], ["gen"], False, weak], ["reg", ["o", 0], ["gen"], False, False], ["reg", ["o", 0], ["name", 0], False, True],
+                                               ["reg", ["o", 0], ["gen", 1], False, weak], ["reg", ["o", 0], ["daemon"], False, False], ["registered"], ["return", 0],
+                                               ["unreg_obj", ["o", 0]], ["reg", ["o", 0], ["gen"], False, not weak], ["reg", ["o", 0], ["name", 1], False, False], ["return", 0]]})
+        out.append({"ser": ser, "events": [["reg", ["c", 1], ["gen"], False, False], ["reg", ["c", 1], ["name", 0], False, False], ["reg", ["c", 1], ["gen"], False, False],
+                                           ["call", ["gen", 0]], ["unreg_id", ["gen", 0]], ["reg", ["c", 1], ["name", 0], False, False], ["call", ["name", 0]], ["call", ["gen", 0]]]})
+        # generated ids with force: nothing else is displaced
+        out.append({"ser": ser, "events": [["reg", ["o", 0], ["name", 0], False, False], ["reg", ["o", 1], ["gen"], True, False], ["reg", ["o", 2], ["gen", 1], True, True],
+                                           ["registered"], ["call", ["name", 0]], ["call", ["gen", 0]], ["call", ["gen", 1]], ["return", 0], ["return", 1], ["return", 2]]})
     return out
 
 
